@@ -21,7 +21,7 @@ def shapes(level):
 
 INPUT_TYPES_SDL = """
 directive @mk on SCALAR | ENUM | ENUM_VALUE | INPUT_OBJECT | INPUT_FIELD_DEFINITION | ARGUMENT_DEFINITION
-enum Color @mk { RED GREEN @mk BLUE }
+enum Color @mk { RED GREEN @mk BLUE True False }
 scalar Tag @mk
 input P @mk { a: Int @mk b: String = "x" c: [Int!] @mk }
 input Q { r: Int! @mk p: P d: Int! = 7 @mk l: [String!]! = ["id"] }
@@ -35,7 +35,7 @@ BASE_VALUES = {
     "Boolean": [True, False, 0, 1, "true", "", 1.0],
     "ID": ["", "id", 0, 7, -3, 2 ** 40, 1.0, 1.5, True, {"id": 1}],
     "Tag": ["", "t", 1, True, ["t", 1]],
-    "Color": ["RED", "BLUE", "red", "PURPLE", "", 0, True, {"RED": 1}],
+    "Color": ["RED", "BLUE", "red", "PURPLE", "", 0, True, {"RED": 1}, False, "True", 1.0],
     "P": [{}, {"a": 1}, {"a": None}, {"a": "x"}, {"zz": 1}, {"a": 1, "zz": 2}, {"b": None}, {"b": "y"}, {"b": 3}, {"c": [1, 2]},
           {"c": 1}, {"c": [None]}, {"c": None}, {"c": []}, {"c": ["x"]}, {"a": 1, "b": "y", "c": [3]}, 5, "s", True],
     "Q": [{"r": 1}, {}, {"r": None}, {"r": "x"}, {"r": 1, "p": {"a": "bad"}}, {"r": 1, "p": {"b": "y"}}, {"r": 1, "p": None},
